@@ -109,11 +109,11 @@ PROPS = {
             "from src/api.rs, for haystacks of any length and any regex): RegexSearcher::next - a step starts at the cursor, "
             "ends on a char boundary, the cursor moves to its end; Reject up to the regex's next match, Match exactly for it, "
             "Done only at the end and sticky - with find_from(..).next() as an uninterpreted first-match function (C09's "
-            "contract, assumed); RegexSearcher::next_back likewise, with find_last_match_before as an ASSUMED contract. "
+            "contract, assumed); RegexSearcher::next_back likewise, with find_last_match_before as an assumed contract that "
+            "is checked separately (Kani, bounded: every match sequence of <= 3 matches on a 4-byte haystack). "
             "BOUNDED (Kani, feature pattern, real matcher driver with an oracle interpreter, 4-byte haystack with a 2-byte "
             "char): the forward step. KNOWN FINDINGS: F7 (forward) and F7b (reverse): after a zero-width match the steps are "
-            "not adjacent, and next_back then skips matches. NOT covered: find_last_match_before itself (its loop is outside "
-            "both tools), agreement of the reverse stream with the forward match sequence, interleavings of next/next_back, "
+            "not adjacent, and next_back then skips matches. NOT covered: agreement of the reverse stream with the forward match sequence, interleavings of next/next_back, "
             "Pattern-level consumers (find, split)."),
 }
 
